@@ -548,3 +548,8 @@ MUTANTS += [
  {"id": "c13-diagfock-energy-of-removed-index", "prop": "C13", "file": _EC, "old": "            NonSymmetricTensor(tensor_names.orb_energy, (remaining_idx,)),\n            self.exponent", "new": "            NonSymmetricTensor(tensor_names.orb_energy, (q,)),\n            self.exponent"},
  {"id": "c13-diagfock-ignores-given-target", "prop": "C13", "file": _EC, "old": "        result = evaluate_deltas(self.sympy * delta, target_idx=target)\n        if isinstance(result, Mul):  # could not evaluate", "new": "        result = evaluate_deltas(self.sympy * delta)\n        if isinstance(result, Mul):  # could not evaluate"},
 ]
+MUTANTS += [
+ {"id": "c13-blockdiag-general-index-dropped", "prop": "C13", "file": _EC, "old": "            if space[0] == space[1] or \"g\" in space:", "new": "            if space[0] == space[1]:"},
+ {"id": "c13-blockdiag-keeps-off-diagonal", "prop": "C13", "file": _EC, "old": "            else:  # off diagonal block\n                bl_diag = 0", "new": "            else:  # off diagonal block\n                bl_diag = self.sympy"},
+ {"id": "c13-blockdiag-any-tensor", "prop": "C13", "file": _EC, "old": "        if self.name == tensor_names.fock:\n            space = self.space\n            assert len(space) == 2", "new": "        if len(self.space) == 2:\n            space = self.space\n            assert len(space) == 2"},
+]
